@@ -249,8 +249,49 @@ def observe(confs):
             "properties": [[t, [[k, v] for k, v in dict(p).items()]] for t, p in c.properties.items()],
             "services": [[s.protocol.name, s.identifier, int(s.port), [[k, v] for k, v in s.properties.items()]]
                          for s in c.services],
+            "identifier": c.identifier,
+            "main_service": _main_service(c),
+            "devinfo": _devinfo(c),
         })
     return out
+
+
+def _main_service(c):
+    try:
+        s = c.main_service()
+    except Exception:  # NoServiceError
+        return None
+    return [s.protocol.name, int(s.port)]
+
+
+def _devinfo(c):
+    """What else a user reads from device_info (judged by the oracle only, not modelled)."""
+    d = c.device_info
+    try:
+        return [int(d.operating_system.value), d.version, d.build_number, d.mac, d.output_device_id, d.raw_model]
+    except Exception as ex:
+        return ["EXC", repr(ex)]
+
+
+def devinfo_unambiguous(c, protos):
+    """Premise for judging the remaining device_info fields: the extractors of the requested protocols,
+    each applied on its own to one service type's properties (no order involved), do not contradict each
+    other in any key - the formal reading of "self-consistent" for those fields."""
+    from pyatv.const import Protocol
+    from pyatv.protocols import PROTOCOLS
+    from pyatv.support.collections import CaseInsensitiveDict
+    seen = {}
+    for t, props in c["properties"]:
+        for pname in (protos or PROTO_ORDER):
+            if t in TYPES[pname]:
+                try:
+                    d = PROTOCOLS[Protocol[pname]].device_info(t, CaseInsensitiveDict(dict(props)))
+                except Exception:
+                    d = {}
+                for k, v in d.items():
+                    if seen.setdefault(k, v) != v:
+                        return False
+    return True
 
 
 def run_scan(mode, protos, ids, feed, burst=False):
@@ -349,7 +390,7 @@ def make_service(rng, ty, dev, idx):
             chunks.append(["acl", hx("0")])
     elif ty == "_companion-link._tcp.local":
         chunks = [["rpHA", hx("9948cfb6da55")], ["rpFl", hx("0x36782")]]
-        if rng.random() < 0.6 and "companion" not in blank:
+        if (rng.random() < 0.6 or dev.get("force_companion_id")) and "companion" not in blank:
             chunks.append(["rpMRtID", hx(did + "-CMP")])
         elif "companion" in blank and rng.random() < 0.5:
             chunks.append(["rpMRtID", ""])
@@ -436,6 +477,13 @@ def make_device(rng, i, kinds, nserv=None):
     # does not contradict the AirPlay/RAOP/Companion model string
     n = nserv or rng.randint(1, 5)
     tys = rng.sample(kinds, min(n, len(kinds)))
+    modern = ["_airplay._tcp.local", "_raop._tcp.local", "_companion-link._tcp.local"]
+    if nserv is None and rng.random() < 0.3 and all(t in kinds for t in modern):
+        # tvOS 15+ Apple TV / HomePod / AirPort Express: neither MRP nor DMAP, several services with identifiers
+        tys = rng.sample(modern, rng.randint(2, 3))
+        if rng.random() < 0.3:
+            tys.append("_airport._tcp.local")
+        dev["force_companion_id"] = True
     if "_hscp._tcp.local" in tys and dev["apmodel"] != "Bogus1,1":
         dev["apmodel"] = None      # an iTunes library (model Music) does not also claim an Apple TV model
     dev["services"] = [make_service(rng, t, dev, k) for k, t in enumerate(tys)]
@@ -735,18 +783,22 @@ def feed_for(sc, enc, order):
     return feed
 
 
-def normalise(obs):
-    """The snapshot the property talks about: address, identifiers, services with ports and
-    properties (merged per protocol, and the per-service-type table config.properties), model,
-    deep-sleep flag - as a set.  observe() copied everything when scan() returned."""
+def normalise(obs, protos=None):
+    """The snapshot the property talks about: address, identifiers (the set and the main one), services with
+    ports and properties (merged per protocol, and the per-service-type table config.properties), model,
+    deep-sleep flag - plus what a user derives from the result: name, main service, and the remaining
+    device_info fields where the announcements do not contradict each other.  As a set; observe() copied
+    everything when scan() returned."""
     out = []
     for c in obs:
         out.append((c["address"],
                     tuple(sorted(s[1] for s in c["services"] if s[1] is not None)),
                     tuple(sorted((s[0], s[2], tuple(sorted(map(tuple, s[3])))) for s in c["services"])),
                     c["model"], c["deep_sleep"],
-                    tuple(sorted((t, tuple(sorted(map(tuple, p)))) for t, p in c["properties"]))))
-    return sorted(out)
+                    tuple(sorted((t, tuple(sorted(map(tuple, p)))) for t, p in c["properties"])),
+                    c["identifier"], c["name"], tuple(c["main_service"] or ()),
+                    tuple(c["devinfo"]) if devinfo_unambiguous(c, protos) else None))
+    return sorted(out, key=repr)
 
 
 def effective(sc, order, info, burst=False):
@@ -843,15 +895,17 @@ class Emit:
 
     def obs(self, obs):
         if obs == "EXC":
-            return "[mkO 0 None false 99 [] []]"
+            return "[mkO 0 None false 99 [] [] None None]"
         cs = []
         for c in obs:
             props = "[" + ";".join("(%s,%s)" % (self.str(t), self.dict(p)) for t, p in c["properties"]) + "]"
             svcs = "[" + ";".join(
                 self.intern("v", "osvc", "(%d,%s,%d,%s)" % (PROTO_NUM[x[0]], self.ostr(x[1]), x[2], self.dict(x[3])))
                 for x in c["services"]) + "]"
-            cs.append(self.intern("c", "oconfig", "(mkO %d %s %s %d %s %s)" % (
-                c["address"], self.ostr(c["name"]), common.cbool(c["deep_sleep"]), c["model"], props, svcs)))
+            ms = c["main_service"]
+            cs.append(self.intern("c", "oconfig", "(mkO %d %s %s %d %s %s %s %s)" % (
+                c["address"], self.ostr(c["name"]), common.cbool(c["deep_sleep"]), c["model"], props, svcs,
+                self.ostr(c["identifier"]), "None" if ms is None else "(Some (%d,%d))" % (PROTO_NUM[ms[0]], ms[1]))))
         return "[" + ";".join(cs) + "]"
 
     def case(self, sc, enc, order, obs, info, burst=False):
@@ -964,7 +1018,7 @@ def group_judge(sc, res):
             if not (set(order) & extra):
                 continue
             ref = plain.get((tuple(i for i in order if i not in extra), burst))
-            if ref is not None and normalise(ref[1]) != normalise(obs):
+            if ref is not None and normalise(ref[1], sc["protos"]) != normalise(obs, sc["protos"]):
                 out.append({"key": "C12:multicast:unrequested-answer-changes-result",
                             "what": "answers for service types that were not requested changed the returned configurations "
                                     "(delivery with them vs the same delivery without them)",
@@ -980,9 +1034,9 @@ def group_judge(sc, res):
             continue
         groups = {}
         for order, obs, info, _ in sel:
-            groups.setdefault(effective(sc, order, info, burst), []).append((order, normalise(obs)))
+            groups.setdefault(effective(sc, order, info, burst), []).append((order, normalise(obs, sc["protos"])))
         base_order, base_obs, base_info, _ = sel[0]
-        base_n = normalise(base_obs)
+        base_n = normalise(base_obs, sc["protos"])
         base_e = effective(sc, base_order, base_info, burst)
         for e, members in groups.items():
             o0, n0 = members[0]
@@ -1146,7 +1200,8 @@ def run(ctx):
         "lookup_model/lookup_internal_name are parameters of the model; the run instantiates them with the values the "
         "real functions return for the strings used",
         "not modelled: credentials/password/enabled/pairing of services, service_info updaters, device_info keys other "
-        "than MODEL, the zeroconf-backed scanners (they delegate aggregation to the zeroconf package)",
+        "than MODEL (os, version, build, mac, output device id, raw model are judged by the oracle across deliveries where "
+        "the per-service extractor results do not contradict each other), the zeroconf-backed scanners",
     ]
     ctx.assumptions += [
         "self-consistent devices = hypothesis `consistent` of the theorems (see coq/C12/Spec.v): per source one rdata per "
@@ -1181,7 +1236,7 @@ def replay(ctx, path):
     for order, obs, info, burst in res:
         print("order=%s mode=%s delivered=%s aborted=%s completed=%s" % (
             order, "burst" if burst else "one-per-iteration", info.get("delivered"), info.get("aborted"), info.get("completed")))
-        print("   returned=%s" % ("EXC " + str(info.get("raised")) if obs == "EXC" else json.dumps(normalise(obs))))
+        print("   returned=%s" % ("EXC " + str(info.get("raised")) if obs == "EXC" else json.dumps(normalise(obs, sc["protos"]))))
     errs = group_judge(sc, res)
     for e in errs:
         print("property-error: %s - %s" % (e["key"], e["what"]))
